@@ -52,11 +52,19 @@ let task_matches ty sg size (k : task) =
   | "R", TReemit (s, ps) -> s = sg && List.length ps = size
   | _ -> false
 
-let find_entry (s : st) ty sg size shared_only =
+let find_entry_in (s : st) ty sg size shared_only (want : int option) =
   let rec go i = function
     | [] -> None
-    | (q, k) :: r -> if task_matches ty sg size k && ((not shared_only) || q = 0) then Some i else go (i + 1) r
+    | (q, k) :: r ->
+        if task_matches ty sg size k && ((not shared_only) || q = 0) && (match want with Some w -> q = w | None -> true) then Some i else go (i + 1) r
   in go 0 s.queue
+(* the log names the queue the fetched task was added to: take the entry of that queue when there is one (two tasks for the same
+   subgrid with the same number of packets can wait in different queues at the same time) *)
+let find_entry_hint (s : st) ty sg size shared_only (hint : int) =
+  match (if hint >= 0 then find_entry_in s ty sg size shared_only (Some (hint + 1)) else None) with
+  | Some i -> Some i
+  | None -> find_entry_in s ty sg size shared_only None
+let find_entry (s : st) ty sg size shared_only = find_entry_in s ty sg size shared_only None
 
 let qsel_of (qs : int list) = fun n -> (match List.nth_opt qs n with Some q when q >= 0 -> q | _ -> 9999)
 let thr_pc (s : st) t = List.nth s.thr t
@@ -71,10 +79,11 @@ let rec enq_until s t ty sg size =
 let exec (s : st) (w : string list) : st option =
   let i = int_of_string in
   match w with
-  | [ "FETCH"; t; kind; ty; sg; size ] ->
+  | "FETCH" :: t :: kind :: ty :: sg :: size :: hint ->
       let t = i t and kind = i kind and sg = i sg and size = i size in
+      let hint = (match hint with [ h ] -> i h | _ -> -1) in
       let s = if kind = 1 && thr_pc s t = PIdle then (match stp s "PrematureSkip" (LPrematureSkip t) with Some s' -> s' | None -> s) else s in
-      find_entry s ty sg size (kind = 0) >>= fun e -> stp s ("Fetch" ^ ty) (LFetch (t, e))
+      find_entry_hint s ty sg size (kind = 0) hint >>= fun e -> stp s ("Fetch" ^ ty) (LFetch (t, e))
   | [ "FETCHNONE"; t; kind ] ->
       let t = i t and kind = i kind in
       let s = if kind = 1 && thr_pc s t = PIdle then (match stp s "PrematureSkip" (LPrematureSkip t) with Some s' -> s' | None -> s) else s in
@@ -182,7 +191,11 @@ let () =
               else (match !state with
                   | Some s -> (match exec s w with
                       | Some s' -> state := Some s'; retry ()
-                      | None -> Queue.push (!lineno, w) q; incr ndeferred)
+                      | None ->
+                          (match Sys.getenv_opt "C01_DEBUG_LINE" with
+                           | Some l when int_of_string l = !lineno || (int_of_string l < 0 && !ndeferred < - (int_of_string l)) -> Printf.printf "DEBUG line %d '%s' deferred in state %s\n" !lineno (String.concat " " w) (describe s)
+                           | _ -> ());
+                          Queue.push (!lineno, w) q; incr ndeferred)
                   | None -> errors := "command before START" :: !errors)
             end)
      done
